@@ -13,6 +13,10 @@ Per run (this file):
   * per-instance certificate: for EVERY implementation output the proved-sound checker
     `trace_equiv_b` is evaluated in Coq on (flattened implementation output, original circuit),
     which is a kernel-checked proof that this output is a legal commutation of the input;
+  * histories: in about half of the cases the parameters of some gates (angles, Unitary matrices) are replaced after
+    the circuit was built (gate.parameters = ..., Circuit.set_parameters) and before fuse / light_cone; the gates
+    of the light-cone circuit must carry the CURRENT parameters and matrices, the fused circuit must consist of
+    the very gate objects of the input, and the exact executions run on the updated values;
   * semantic cross-check ("test"): original and fused circuit are executed by the real numpy
     backend on Gaussian-integer data (exact), light-cone circuits on signed-permutation unitaries
     with integer product states, reduced density matrices compared as integers.
@@ -128,7 +132,65 @@ def build(n, descs, mode="named", seed=0):
         g._desc = d
         c.add(g)
     assert len(c.queue) == len(descs)
+    apply_updates(c, descs, mode, seed)
     return c
+
+
+def new_params(g, mode, seed, i, k):
+    """variant k of the parameters of gate g (None if g has no parameters)"""
+    from qibo.gates.abstract import ParametrizedGate
+    if not isinstance(g, ParametrizedGate):
+        return None
+    if type(g).__name__ == "Unitary":
+        dim = 2 ** len(g.target_qubits)
+        r = random.Random(seed * 7919 + i * 31 + k)
+        if mode == "int":
+            return int_matrix(dim, r)
+        if mode == "perm":
+            return monomial_matrix(dim, r)
+        return np.roll(np.eye(dim, dtype=complex), k, axis=0) * (1j ** k)
+    ps = tuple(float(x) + 0.5 * k for x in g.parameters)
+    return ps[0] if len(ps) == 1 else ps
+
+
+def apply_updates(c, descs, mode, seed):
+    """the parameter-update history of a case: gates whose desc carries "upd" = {"k", "how"} get new
+    parameters AFTER the circuit was built, through the gate setter or Circuit.set_parameters"""
+    by_dict = {}
+    for i, d in enumerate(descs):
+        u = d.get("upd")
+        if not u:
+            continue
+        g = c.queue[i]
+        newp = new_params(g, mode, seed, i, u["k"])
+        if newp is None:
+            continue
+        if u["how"] == "setter":
+            g.parameters = newp
+        else:
+            by_dict[g] = newp
+    if by_dict:
+        c.set_parameters(by_dict)
+
+
+def add_updates(rng, descs):
+    """with probability 1/2 mark about half of the ordinary gates for a parameter update after construction"""
+    if rng.random() < 0.5:
+        return descs
+    how = rng.choice(["setter", "set_parameters"])
+    out = []
+    for d in descs:
+        if d["kind"] == "ord" and rng.random() < 0.5:
+            d = dict(d)
+            d["upd"] = {"k": rng.randint(1, 3), "how": how}
+        out.append(d)
+    return out
+
+
+def params_equal(a, b):
+    if len(a) != len(b):
+        return False
+    return all(np.array_equal(np.asarray(x), np.asarray(y)) for x, y in zip(a, b))
 
 
 def kind_of(g):
@@ -227,13 +289,15 @@ def gen_layers(rng):
 
 
 def canon(d):
-    return (d["name"], d["q"], [canon(m) for m in d["members"]]) if d["kind"] == "fin" else (d["name"], d["q"])
+    if d["kind"] == "fin":
+        return (d["name"], d["q"], [canon(m) for m in d["members"]])
+    return (d["name"], d["q"], sorted(d["upd"].items())) if d.get("upd") else (d["name"], d["q"])
 
 
 def show(d):
     if d["kind"] == "fin":
         return "Fused[" + ",".join(show(m) for m in d["members"]) + "]"
-    return f"{d['name']}{tuple(d['q'])}"
+    return f"{d['name']}{tuple(d['q'])}" + ("*" if d.get("upd") else "")
 
 
 def gen_refuse(rng):
@@ -469,6 +533,7 @@ def fuse_cases(run, rng, count):
     while len(cases) < count:
         n, descs = gen_case(rng, i)
         i += 1
+        descs = add_updates(rng, descs)
         if not valid(n, descs):
             continue
         kmax = n + (1 if rng.random() < 0.1 else 0)
@@ -504,6 +569,11 @@ def python_side_fuse_checks(c, fused, out, k):
     for g in fused.queue:
         if isinstance(g, gates.M) and not any(g is h for h in c.queue):
             bad.append("measurement gate replaced")
+        members = g.gates if (isinstance(g, gates.FusedGate) and not any(g is h for h in c.queue)) else [g]
+        for m in members:
+            v = getattr(m, "_vid", None)
+            if v is None or v >= len(c.queue) or m is not c.queue[v]:
+                bad.append("a gate of the fused circuit is not the (current) gate object of the input circuit")
     return bad
 
 
@@ -620,12 +690,35 @@ def lc_cases(rng, count):
     while len(cases) < count:
         n, descs = gen_case(rng, i)
         i += 1
+        descs = add_updates(rng, descs)
         if not valid(n, descs):
             continue
         m = rng.choice([0, 1, 1, 1, 2, 2, 3]) if rng.random() < 0.9 else rng.randint(0, n)
         S = rng.sample(range(n), min(m, n))
         cases.append((n, descs, S))
     return cases
+
+
+def python_side_lc_checks(c, lc, qmap, S):
+    """property-level facts checked directly on the implementation output of light_cone"""
+    bad = []
+    cone = sorted(qmap)
+    if qmap != {q: i for i, q in enumerate(cone)}:
+        bad.append("qubit_map is not the order-preserving enumeration of the cone")
+    if lc.nqubits != len(cone):
+        bad.append("nqubits of the light-cone circuit differs from the cone size")
+    if not set(S) <= set(cone):
+        bad.append("requested qubits not in the cone")
+    for g in lc.queue:
+        orig = c.queue[g._vid]
+        if type(g) is not type(orig):
+            bad.append("gate class changed")
+        elif not params_equal(g.parameters, orig.parameters):
+            bad.append(f"gate {g._vid} ({type(g).__name__}) of the light-cone circuit does not carry the CURRENT "
+                       "parameters of the original gate")
+        elif kind_of(orig) == "O" and not np.array_equal(np.asarray(g.matrix()), np.asarray(orig.matrix())):
+            bad.append(f"gate {g._vid} ({type(g).__name__}) of the light-cone circuit has a different matrix")
+    return bad
 
 
 def run_light_cone(run, rng, count, shard=400, n_exec=60):
@@ -664,18 +757,9 @@ def run_light_cone(run, rng, count, shard=400, n_exec=60):
                          "Circuit.light_cone returned a gate acting on a qubit that is not in the qubit map",
                          {"mechanism": "light_cone", "nqubits": n, "qubits": S, "descs": descs})
                 continue
-            bad = []
+            bad = python_side_lc_checks(c, lc, qmap, S)
             cone = sorted(qmap)
-            if qmap != {q: i for i, q in enumerate(cone)}:
-                bad.append("qubit_map is not the order-preserving enumeration of the cone")
-            if lc.nqubits != len(cone):
-                bad.append("nqubits of the light-cone circuit differs from the cone size")
-            if not set(S) <= set(cone):
-                bad.append("requested qubits not in the cone")
             kept = [(g._vid, list(g.qubits)) for g in lc.queue]
-            for v, qs in kept:
-                if type(lc.queue[[w for w, _ in kept].index(v)]) is not type(c.queue[v]):
-                    bad.append("gate class changed")
             header += f"Definition c{idx} : list gate := {coq_circuit(c)}.\n"
             header += f"Definition k{idx} : list (nat * option (list nat)) := [{'; '.join(f'({v}, Some {nl(qs)})' for v, qs in kept)}].\n"
             items.append((f"{idx}:out", f"lc_out_eqb (light_cone_model c{idx} {nl(S)}) ({len(cone)}, {nl(cone)}, k{idx})"))
@@ -816,7 +900,10 @@ def main(run):
         run.oblige("coqchk re-checks the compiled cone of C07/Props (no axioms)", rc == 0 and "Axioms: <none>" in out, "kernel-recheck")
     return run.finish(level="proof", rule=(
         "random (n<=6, len<=12, arities 1-3, controlled gates, M incl. collapse, CallbackGate), circuits containing "
-        "FusedGate inputs (outputs of a real fuse re-fused with another width; hand-made fused inputs), adversarial "
+        "FusedGate inputs (outputs of a real fuse re-fused with another width; hand-made fused inputs), histories "
+        "(about half of the cases update the parameters of ~half of the ordinary gates, incl. Unitary matrices, after "
+        "construction via the gate setter or Circuit.set_parameters BEFORE fuse / light_cone; outputs must carry the "
+        "current values: parameter and matrix equality per gate, exact execution), adversarial "
         "(non-commuting gates between fusion partners), dense and brickwork circuits; max_qubits 0..n+1; light-cone "
         "subsets of size 0..3; a fuse case is non-trivial if the circuit has >=3 gates and at least one fused group is "
         "formed, a light-cone case if some but not all gates are kept; distinct by (n, k or S, gate list)"))
@@ -859,6 +946,7 @@ def replay(run, data):
                     diff = diff or exec_lc_check(n, descs, S, s)
             c = build(n, descs)
             lc, qmap = observe_light_cone(c, S)
+            bad += python_side_lc_checks(c, lc, qmap, S)
             cone = sorted(qmap)
             kept = [g._vid for g in lc.queue]
             hdr = HEADER + f"Definition c0 : list gate := {coq_circuit(c)}.\n"
